@@ -5,7 +5,7 @@
    outside the agent are runtime behaviour this model cannot exhibit; they are observed by the harness
    (race detector, watchdog) and not proved.  What is proved holds for every schedule and history. *)
 From Coq Require Import NArith ZArith List Bool.
-From StunV Require Import Base.ListAux Model.Agent Model.AgentConc Proofs.AgentProofs Proofs.AgentConcProofs.
+From StunV Require Import Base.ListAux Model.Agent Model.AgentConc Proofs.AgentProofs Proofs.AgentConcProofs Proofs.AgentNestProofs.
 Import ListNotations.
 Open Scope N_scope.
 
@@ -23,6 +23,23 @@ Theorem C14_conc_linearizable : forall h0 g, reachable (init_cfg h0) g ->
      exists x1, l_cid x1 = c1 /\ before x1 x2 (lin g)).
 Proof. exact conc_linearizable. Qed.
 Print Assumptions C14_conc_linearizable.
+
+(* program order inside a goroutine: a call made while an earlier call of the same goroutine is still open
+   (from one of its handlers, or deeper) takes effect after it: the earlier call is already in the order when
+   the later one is invoked, and the later one is placed after it.  The harness demands the same of every
+   recorded history ([parents_ok], evaluated by the model) on top of real-time order. *)
+Theorem C14_conc_nested_order : forall h0 g t c c', reachable (init_cfg h0) g ->
+  (exists o o' h1 h2 h3, hist g = h1 ++ HInv t c o :: h2 ++ HInv t c' o' :: h3 /\ (forall r, ~ In (HRes t c r) h2)) ->
+  In c (map l_cid (lin g)) /\
+  (forall x', In x' (lin g) -> l_cid x' = c' -> exists x, l_cid x = c /\ before x x' (lin g)).
+Proof. exact conc_nested_order. Qed.
+Print Assumptions C14_conc_nested_order.
+
+(* calls nest only from handlers that run with the mutex released *)
+Theorem C14_conc_nesting_only_from_handlers : forall h0 g t f rest, reachable (init_cfg h0) g ->
+  thr g t = f :: rest -> forall f', In f' rest -> match f' with FEmit _ _ _ _ false => True | _ => False end.
+Proof. exact conc_nesting_only_from_handlers. Qed.
+Print Assumptions C14_conc_nesting_only_from_handlers.
 
 (* no deadlock: while any goroutine is inside a call, some goroutine can step *)
 Theorem C14_conc_deadlock_free : forall h0 g, reachable (init_cfg h0) g ->
@@ -90,3 +107,19 @@ Example C14_reentrant_schedule :
   | None => False
   end.
 Proof. vm_compute. repeat split. Qed.
+
+(* non-vacuity of C14_conc_nested_order: in that schedule, stopped after the nested Start(8) was invoked,
+   goroutine 0 has invoked call 2 (Start 8) while its call 1 (Stop 7) was open, and the order has 1 before 2 *)
+Example C14_nested_nonvacuous :
+  match exec (init_cfg 1) [ActInvoke 0 (AStart 7 5); ActStep 0; ActStep 0; ActStep 0;
+                           ActInvoke 0 (AStopErr 7 0); ActStep 0; ActStep 0; ActStep 0;
+                           ActInvoke 0 (AStart 8 3); ActStep 0; ActStep 0] with
+  | Some g => nested (hist g) 0 1 2 /\ map l_cid (lin g) = [0; 1; 2]
+  | None => False
+  end.
+Proof.
+  vm_compute. split; [|reflexivity].
+  exists (AStopErr 7 0), (AStart 8 3),
+    [HInv 0 0 (AStart 7 5); HRes 0 0 ROk], [HEv 0 1 (mkEv 1 7 K_STOPPED 0 true)], []. split; [reflexivity|].
+  intros r [H|[]]. discriminate H.
+Qed.
